@@ -55,7 +55,7 @@ Proof.
   destruct k3_witness as (S & _ & B & _).
   split; [reflexivity|]. split; [discriminate|]. split; [exact S|]. split; [discriminate|].
   split; [reflexivity|].
-  intros H. apply Z.leb_le in H. unfold bound_ok in B. rewrite H in B. discriminate.
+  intros H. apply Z.leb_le in H. unfold bound_ok, bound_ok_ds in B. rewrite H in B. discriminate.
 Qed.
 Print Assumptions C15_gc_refuted.
 
